@@ -20,7 +20,9 @@ if ck.replay_in:
 
 ok, out = ck.forbidden_vernac()
 if not ok:
-    broken.append(("forbidden-vernacular", out))
+    mine = [l for l in out.split("\n") if "/C06" in l]     # other properties' files are their checks' business
+    if mine:
+        broken.append(("forbidden-vernacular", "\n".join(mine)))
 
 # 1. translator + theorems
 ok, out = ck.genmodel()
@@ -37,7 +39,9 @@ have_gen = os.path.exists(os.path.join(COQ, "Gen", "C06_SortKey.v"))
 if have_gen:
     ok, out = ck.coq_make(["Gen/C06_SortKey.vo"])
     have_gen = ok
+ck.log("coq made")
 ok, out = ck.coq_props()
+ck.log("props checked")
 if not ok:
     m = re.search(r"File \"\./Props/C06\.v\", line (\d+)", out)
     which = ""
@@ -81,6 +85,7 @@ if exe is None:
     ck.violation("harness-build", "harness does not build", {"log": out[-3000:]}, no_input=True)
     ck.finish({"explanation": "harness build failed", "evaluations": 1, "distinct_nontrivial": 0, "rule": "n/a", "samples": ["harness build failed"]})
 rt.join()
+ck.log("binaries built")
 race = race_res.get("exe")
 if race is None:
     broken.append(("race-build", (race_res.get("out") or "")[-2000:]))
@@ -94,7 +99,7 @@ if race:
 if ck.thorough():
     args += ["-same", "40", "-partial", "12", "-race", "4", "-par", "4", "-racerepo", "./lintcmd/runner,./internal/sync,./analysis/lint,./unused"]
 else:
-    args += ["-same", "8", "-partial", "3", "-race", "1", "-par", "4"]
+    args += ["-same", "6", "-partial", "2", "-race", "1", "-par", "4", "-traced", "2"]
 env = dict(GOENV); env["VERIF_REPO"] = REPO
 rc, out = sh(args, timeout=7200, env=env)
 if rc != 0 or not os.path.exists(res):
